@@ -68,9 +68,9 @@ static void ShLeftOp(TempResult* pErg, TempResult* pLVal, TempResult* pRVal) {
 
 static void ShRightOp(TempResult* pErg, TempResult* pLVal, TempResult* pRVal) {
     if ((pRVal->Contents.Int < 0) || (pRVal->Contents.Int >= LARGEBITS)) {
-        as_tempres_set_int(pErg, (pLVal->Contents.Int < 0) ? -1 : 0);
+        as_tempres_set_int(pErg, 0);
     } else {
-        as_tempres_set_int(pErg, pLVal->Contents.Int >> pRVal->Contents.Int);
+        as_tempres_set_int(pErg, (LargeInt)((LargeWord)pLVal->Contents.Int >> pRVal->Contents.Int));
     }
     PromoteLRValFlags();
 }
